@@ -55,6 +55,9 @@ T = {
  "C18": ("Coq proof (generic round-trip theorem for a key-list driven writer/reader incl. h5py's str->bytes; obligations decided on the reader/writer/constructor key lists GENERATED from gmm.py on every run: every recorded setting bound to its own key, every written key read, trainer decoded, floors before variances, statistics fields) + round-trip oracle",
          "The reader/writer tie is regenerated from source (ast) on every run, so an edit that stops restoring a setting breaks a proof obligation; the oracle performs the round trips (constructor-from-file, open file, load into another shape, re-save, legacy layouts, statistics) and compares bits, equality, scores, settings and a further fit.",
          "extractor harness/extract_facts.py is trusted; unrecorded settings assumed at defaults (stated).", "DESIGN.md 4/C18"),
+ "C19": ("Coq proof (effect language for array aliasing with a verified taint check: a checked program leaves caller memory unchanged and its untainted results are fresh; any sequence of checked calls; obligation decided on the in-place update sites GENERATED from /repo/src: every site targets a provably fresh local, a += left operand, a file handed over for writing, or an individually justified site) + bit-snapshot / shares_memory oracle over every public entry point",
+         "check_sound and calls_compose are closed under the global context; the generated-site obligation breaks as soon as a new in-place update on a parameter or unknown target appears anywhere in the package (even one no small input triggers); the oracle calls every public entry point twice with the same input objects (NumPy, Dask arrays, bags), compares input bits, tests memory sharing and overwrites data / initial centroids / prior arrays afterwards.",
+         "the provenance analysis in harness/extract_facts.py is conservative and trusted; effect programs model four named mechanisms only.", "DESIGN.md 4/C19"),
 }
 
 NOT_YET = "check not built yet in this round (the proof technique applies; see DESIGN.md section 4)"
